@@ -713,7 +713,12 @@ pub fn run(spec: &WorkerSpec) -> WorkerResult {
     let source = bin.with_extension("rs").to_string_lossy().to_string();
     let max = spec.params.get("max_requests").and_then(|v| v.as_u64()).unwrap_or(25) as usize;
     let fixed: Option<Vec<Value>> = spec.params.get("script").and_then(|v| v.as_array().cloned());
-    let client: Box<dyn Driver> = if spec.property == "C13" {
+    let client: Box<dyn Driver> = if spec.property == "C15" {
+        match crate::dap15::MemDriver::new(spec, max) {
+            Ok(d) => Box::new(d),
+            Err(e) => return WorkerResult { verdict: "harness_error".into(), detail: e, ..Default::default() },
+        }
+    } else if spec.property == "C13" {
         match crate::dap13::BpDriver::new(spec, max) {
             Ok(d) => Box::new(d),
             Err(e) => return WorkerResult { verdict: "harness_error".into(), detail: e, ..Default::default() },
@@ -779,14 +784,14 @@ pub fn run(spec: &WorkerSpec) -> WorkerResult {
     }
     let mut g = sh.m.lock().unwrap();
     let closed_without_disconnect = !g.records.iter().any(|r| matches!(r, Rec::Read(m) if m["command"] == "disconnect" || m["command"] == "terminate"));
-    let mut violations = if spec.property == "C13" { vec![] } else { check_wire(&g.records, &run_result, closed_without_disconnect, &spec.property) };
+    let mut violations = if spec.property == "C13" || spec.property == "C15" { vec![] } else { check_wire(&g.records, &run_result, closed_without_disconnect, &spec.property) };
     let recs = g.records.clone();
     let (dv, dstats) = g.client.finish(&recs);
     violations.extend(dv);
     for (k, v) in dstats {
         *g.stats.entry(k).or_default() += v;
     }
-    if spec.property == "C13" {
+    if spec.property == "C13" || spec.property == "C15" {
         if let Err(e) = &run_result {
             if !e.contains("connection closed") {
                 violations.push(Violation { property: "C12".into(), invariant: "session_died".into(), detail: e.clone(), step: recs.len() });
